@@ -278,5 +278,8 @@ def run(facts, tier):
     c09.r09_2b(facts, res, table)
     c09.r09_2c(facts, res)
     c09.r09_3(facts, res)
+    # name tests expand the caller's prefixes: the binding table and its lookups agree on which pair of a prefix counts
+    from props import c10
+    c10.c10_5(facts, res)
     res.functions_analysed = len(AXIS_SHAPE) + 4
     return res
